@@ -24,7 +24,7 @@ use std::{collections::HashMap, time::Duration};
 
 use crate::{
     config::Role,
-    error::{Error, NegotiationError, SubstreamError},
+    error::{NegotiationError, SubstreamError},
     multistream_select::{dialer_select_proto, listener_select_proto, Negotiated, Version},
     protocol::{Direction, Permit, ProtocolCommand, ProtocolSet, SubstreamKeepAlive},
     substream,
@@ -249,7 +249,17 @@ impl QuicConnection {
 
                         let substream = self.protocol_set.next_substream_id();
                         let protocols = self.protocol_set.protocols_with_keep_alives();
-                        let permit = self.protocol_set.try_get_permit().ok_or(Error::ConnectionClosed)?;
+                        let Some(permit) = self.protocol_set.try_get_permit() else {
+                            // Every protocol has released the connection: it is closing. Leave the
+                            // event loop the same way the `None` command does, so that the
+                            // protocols and the manager are told.
+                            tracing::debug!(
+                                target: LOG_TARGET,
+                                peer = ?self.peer,
+                                "inbound substream on a connection no protocol keeps open, closing connection",
+                            );
+                            return self.protocol_set.report_connection_closed(self.peer, self.endpoint.connection_id()).await;
+                        };
                         let stream = NegotiatingSubstream::new(send_stream, receive_stream);
                         let substream_open_timeout = self.substream_open_timeout;
 
@@ -297,9 +307,20 @@ impl QuicConnection {
                             };
 
                             if let (Some(protocol), Some(substream_id)) = (protocol, substream_id) {
-                                self.protocol_set
-                                    .report_substream_open_failure(protocol, substream_id, error)
-                                    .await?;
+                                // The protocol may have exited. That concerns only this substream:
+                                // the connection stays open for the other protocols.
+                                if let Err(error) = self.protocol_set
+                                    .report_substream_open_failure(protocol.clone(), substream_id, error)
+                                    .await
+                                {
+                                    tracing::debug!(
+                                        target: LOG_TARGET,
+                                        ?protocol,
+                                        peer = ?self.peer,
+                                        ?error,
+                                        "failed to register substream open failure to protocol",
+                                    );
+                                }
                             }
                         }
                         Ok(substream) => {
@@ -323,13 +344,24 @@ impl QuicConnection {
                                 self.protocol_set.protocol_codec(&protocol)
                             );
 
-                            self.protocol_set.report_substream_open(
+                            // The protocol may have exited, in which case the substream is dropped.
+                            // That concerns only this substream: the connection stays open for the
+                            // other protocols.
+                            if let Err(error) = self.protocol_set.report_substream_open(
                                 self.peer,
-                                protocol,
+                                protocol.clone(),
                                 direction,
                                 substream,
                                 opening_permit,
-                            ).await?;
+                            ).await {
+                                tracing::debug!(
+                                    target: LOG_TARGET,
+                                    ?protocol,
+                                    peer = ?self.peer,
+                                    ?error,
+                                    "failed to register opened substream to protocol",
+                                );
+                            }
                         }
                     }
                 }
